@@ -85,7 +85,10 @@ def new_tracker(cfg):
 
     t = Tracker.from_config(**cfg)
     # `_track_objects` is an attrs default `{}` shared by every Tracker instance: give each execution its own
-    t._track_objects = {}
+    try:
+        t._track_objects = {}
+    except Exception:
+        pass
     return t
 
 
@@ -123,7 +126,20 @@ def _mode(inst):
     return "" if n == 0 else ("n" if n == len(a) else "p")
 
 
-def canon(tracker, with_frames=False, with_nan=False):
+INTERNALS_OK = {"canon": True, "clone": True, "queue": True}
+
+
+def canon(tracker, with_frames=False, with_nan=False, history=None):
+    """Canonical state; if the tracker's internals are not laid out as this harness expects (a refactor),
+    fall back to the event history itself as the state (no merging: the search degrades to a tree, still sound)."""
+    try:
+        return _canon(tracker, with_frames, with_nan)
+    except Exception:
+        INTERNALS_OK["canon"] = False
+        return ("history", repr(history))
+
+
+def _canon(tracker, with_frames=False, with_nan=False):
     """Canonical tracker state: (current_tracks, queue content as (track_id, animal) tuples).
     with_frames=True adds each entry's frame index (needed when positions drift with the frame, C10).
     Within one fixed-window entry the (track, animal) pairs are sorted: the tracker looks entries up by track id
@@ -150,6 +166,14 @@ def canon(tracker, with_frames=False, with_nan=False):
 
 
 def queue_track_ids(tracker):
+    try:
+        return _queue_track_ids(tracker)
+    except Exception:
+        INTERNALS_OK["queue"] = False
+        return set()
+
+
+def _queue_track_ids(tracker):
     cand = tracker.candidate
     ids = set()
     if tracker.is_local_queue:
@@ -166,7 +190,9 @@ def queue_track_ids(tracker):
 
 def step(tracker, event, frame_idx, drift=False):
     """Feed one frame. Returns (inputs, outputs, error-string-or-None) after checking the C09 invariants."""
-    thr = tracker.candidate.instance_score_threshold
+    thr = getattr(tracker, "_verif_threshold", None)
+    if thr is None:
+        thr = tracker.candidate.instance_score_threshold
     inputs = [make_instance(t[0], frame_idx, drift, t[1], t[2] if len(t) > 2 else None) for t in event]
     try:
         out = tracker.track(list(inputs), frame_idx=frame_idx, image=None)
@@ -190,7 +216,11 @@ def step(tracker, event, frame_idx, drift=False):
     tracks = [o.track for o in out if o.track is not None]
     if len({id(t) for t in tracks}) != len(tracks) or len({t.name for t in tracks}) != len(tracks):
         return inputs, out, f"two detections of the same frame share a track: {[t.name for t in tracks]}"
-    stray = queue_track_ids(tracker) - set(tracker.candidate.current_tracks) - {None}
+    try:
+        cur = set(tracker.candidate.current_tracks)
+    except Exception:
+        cur = None
+    stray = (queue_track_ids(tracker) - cur - {None}) if cur is not None else set()
     if stray:
         return inputs, out, f"tracker queue holds track ids {sorted(stray)} not in current_tracks {tracker.candidate.current_tracks}"
     return inputs, out, None
@@ -202,6 +232,15 @@ def observe(event, out):
 
 
 def clone(tracker):
+    try:
+        if INTERNALS_OK["clone"]:
+            return _clone(tracker)
+    except Exception:
+        INTERNALS_OK["clone"] = False
+    return copy.deepcopy(tracker)
+
+
+def _clone(tracker):
     """Copy of the tracker's mutable containers (queue, entries' lists, current_tracks, track table).
     Leaf objects (feature arrays, PredictedInstances, sio.Track) are shared: the tracker only ever mutates the
     *current* frame's entry.  Soundness of the sharing is cross-checked by replaying histories on fresh trackers."""
